@@ -593,6 +593,11 @@ find_type(const string &name, CPPDeclaration::SubstDecl &subst,
   Types::const_iterator ti;
   ti = _types.find(name);
   if (ti != _types.end()) {
+    if ((*ti).second->is_template()) {
+      // The template itself is what the name means; it is instantiated by
+      // the caller, which needs its scope to stay below its template scope.
+      return (*ti).second;
+    }
     CPPScope *current_scope = (CPPScope *)this;
     return (*ti).second->substitute_decl
       (subst, current_scope, global_scope)->as_type();
